@@ -14,6 +14,9 @@
      2  burst: the inputs are filled and closed before the call; ROUNDS rounds, the line is the first bad
         round (else the last one)
      4  burst: all the inputs are closed at a common start signal
+     5  producers ahead: the combinator is called when every producer is blocked on a full buffer
+     6  nil results (fmap to a channel type): the mapped function yields nil (reported as 0) for the items
+        divisible by 3; a nil result is an item like any other
    The specification is the same in every environment.  The model of a feeder history is the expected IR
    run against the feeder THREAD (Chan/Feeder.v: the same step function); a burst history is a run of the
    independent-producer model (a particular schedule of it). *)
@@ -22,6 +25,8 @@ From Verif Require Import Base Sexp Chan.Sem Chan.Expected Chan.Explore Chan.Fee
 Open Scope string_scope.
 
 Definition f19 (x : nat) : nat := x + 1000.
+(* the mapped function of the nil-results environment: 0 stands for the nil channel *)
+Definition f19nil (x : nat) : nat := if Nat.eqb (Nat.modulo x 3) 0 then 0 else x + 1000.
 
 (* ---------- guided search: can the model deliver exactly [target] to consumer [ci]? ---------- *)
 Fixpoint is_prefix (a b : list nat) : bool :=
@@ -104,7 +109,8 @@ Definition pcls (n : nat) : string :=
   match n with 1 => "P1" | 4 => "P4" | 16 => "P16" | _ => "P?" end%nat.
 Definition ecls (env : nat) : string :=
   match env with 0 => "" | 1 => "/feeder" | 3 => "/lazy-feeder" | 2 => "/burst-closed-before"
-               | 4 => "/burst-closed-together" | _ => "/env?" end%nat.
+               | 4 => "/burst-closed-together" | 5 => "/producers-ahead" | 6 => "/nil-results"
+               | _ => "/env?" end%nat.
 
 (* the rest of the header after NVAR PROCS OUTER: (environment, rounds, feeding order) *)
 Definition get_env (rest : list nat) : option (nat * nat * list nat) :=
@@ -118,7 +124,7 @@ Definition get_env (rest : list nat) : option (nat * nat * list nat) :=
    burst: no order, at least one round; independent producers: nothing *)
 Definition env_ok (env rounds : nat) (order : list nat) (lists : list (list nat)) : bool :=
   match env with
-  | 0 => Nat.eqb rounds 1 && Nat.eqb (List.length order) 0
+  | 0 | 5 | 6 => Nat.eqb rounds 1 && Nat.eqb (List.length order) 0
   | 1 | 3 => Nat.eqb rounds 1 && valid_order lists order
   | 2 | 4 => Nat.leb 1 rounds && Nat.eqb (List.length order) 0
   | _ => false
@@ -173,7 +179,10 @@ Definition eval19 (e : sexp) : verdict :=
             | _ => mkv false false (Sym "one-output") tag
             end in
           if String.eqb kd "fmap" then
-            match lists with [xs] => exact [map f19 xs] | _ => bad_line end
+            match lists with
+            | [xs] => exact [map (if Nat.eqb env 6 then f19nil else f19) xs]
+            | _ => bad_line
+            end
           else if String.eqb kd "dup" then
             match lists with [xs] => exact [xs; xs] | _ => bad_line end
           else if String.eqb kd "joincc" then join KJoinCC exp_join_cc 2%nat true
